@@ -419,6 +419,10 @@ func (r *c11Run) fetchOptions() *iface.FetchOptions {
 	if r.length >= 0 {
 		l := r.length
 		o.Length = &l
+	} else if k := r.seed % 4; k != 0 {
+		// "no limit" is any negative length (or none at all): -1, -2 and -100 are asked for as well
+		l := []int{0, -1, -2, -100}[k]
+		o.Length = &l
 	}
 	if r.excl != nil {
 		ex := r.excl
